@@ -56,8 +56,16 @@ __TAPKEE_IMPLEMENTATION(LandmarkIsomap)
 
         DenseMatrix embedding = distance_matrix.transpose() * landmarks_embedding.first;
 
+        // a vanishing singular value contributes a zero coordinate (as in Isomap), not 0/0
+        const ScalarType eigenvalue_tolerance = distance_matrix.rows() * std::numeric_limits<ScalarType>::epsilon() *
+                                                landmarks_embedding.second.cwiseAbs().maxCoeff();
         for (IndexType i = 0; i < static_cast<IndexType>(parameters[target_dimension]); i++)
-            embedding.col(i).array() /= sqrt(sqrt(landmarks_embedding.second(i)));
+        {
+            if (landmarks_embedding.second(i) > eigenvalue_tolerance)
+                embedding.col(i).array() /= sqrt(sqrt(landmarks_embedding.second(i)));
+            else
+                embedding.col(i).setZero();
+        }
         return TapkeeOutput(embedding, unimplementedProjectingFunction());
     }
 __TAPKEE_END_IMPLEMENTATION()
